@@ -93,7 +93,8 @@ namespace RecInt
         return rint<K>(-c.Value);
     }
     template <size_t K> inline rint<K>& neg(rint<K>& r, const rint<K>& c) {
-        return neg(r.Value, c.Value);
+        neg(r.Value, c.Value);
+        return r;
     }
     template <size_t K> inline rint<K>& neg(rint<K>& r) {
         neg(r.Value);
